@@ -728,23 +728,20 @@ def check_c16(pid, tier, seed, rep):
     path = os.path.join(vlib.scratch(), "cases_dir.v")
     with open(path, "w") as f:
         f.write("From Coq Require Import String List. Import ListNotations. Open Scope string_scope.\nRequire Import Agents_gen Agents.\n")
-        f.write("Definition cases : list (nat * (string * string * bool * string * string * string)) := [\n" + ";\n".join(
-            "(%d, (%s, %s, %s, %s, %s, %s))" % (i, cs(r["agent"]), cs(r["custom"]), str(r["user"]).lower(), cs(r["home"]), cs(r["cwd"]), cs(r["reported"])) for i, r in enumerate(ok_runs)) + "].\n")
-        # the model's directory of every run, printed; compared below with what the CLI reported after both are resolved the
-        # way the operating system resolves them (symbolic links of the run's scratch tree, ".." after links)
-        f.write("Definition D := Eval vm_compute in map (fun c => let '(n, custom, user, home, cwd, observed) := snd c in match find_agent n with Some a => install_dir a custom user home cwd | None => \"?\" end) cases.\nPrint D.\n")
+        def links_term(r):
+            return "[" + "; ".join("(%s, %s)" % (cs(k), cs(v)) for k, v in sorted(r.get("links", {}).items())) + "]"
+        # model directory and reported directory are compared in Coq after both are resolved the way the operating system
+        # resolves them (coq/Agents.v: physical, over the symbolic links of the run's scratch tree; ".." after links)
+        f.write("Definition cases : list (nat * (string * string * bool * string * string * string * list (string * string))) := [\n" + ";\n".join(
+            "(%d, (%s, %s, %s, %s, %s, %s, %s))" % (i, cs(r["agent"]), cs(r["custom"]), str(r["user"]).lower(), cs(r["home"]), cs(r["cwd"]), cs(r["reported"]), links_term(r)) for i, r in enumerate(ok_runs)) + "].\n")
+        f.write("Definition M := Eval vm_compute in dir_mismatches_phys cases.\nPrint M.\n")
     rc, out = vlib.coqc_file(path, timeout=600)
-    m = re.search(r"D\s*=\s*\[(.*?)\]\s*:\s*list string", out, re.S)
+    m = re.search(r"M\s*=\s*\[(.*?)\]\s*:\s*list nat", out, re.S)
     mism = []
     if rc != 0 or not m:
         rep.violation("corr-coq", dict(log=out[-2000:]), "installation-directory cases do not evaluate in Coq", True)
     else:
-        model_dirs = re.findall(r'"([^"]*)"', m.group(1))
-        if len(model_dirs) != len(ok_runs):
-            rep.violation("corr-coq", dict(log=out[-2000:]), "installation-directory cases: %d directories printed for %d runs" % (len(model_dirs), len(ok_runs)), True)
-        else:
-            mism = [i for i, (r, md) in enumerate(zip(ok_runs, model_dirs))
-                    if stage_fs.resolve_path(md, r.get("links", {})) != stage_fs.resolve_path(r["reported"], r.get("links", {}))]
+        mism = [int(x) for x in re.split(r"[;\s]+", m.group(1).strip()) if x]
     if mism and not nviol:
         r = ok_runs[mism[0]]
         rep.violation("corr-dir-%d" % r["k"], dict(correspondence="coq/Agents.v: install_dir differs from the directory the CLI reports", agent=r["agent"], options=r["opt"], reported=r["reported"], disagreeing=len(mism)),
